@@ -149,16 +149,18 @@ def gen_compu(rng):
                 s["lo"] = (bounds[i], rng.choice([1, 1, None, 0]))
                 s["hi"] = (bounds[i + 1], rng.choice([1, 1, None, 0]))
             if continuous:
-                s["den"] = 1
-                s["num"] = sign * rng.choice([1, 2, 3])
+                # (the slope is num / den: a negative denominator under a negative numerator is an increasing segment)
+                den = rng.choice([1, 1, 1, -1, 2, -2])
+                slope = sign * rng.choice([1, 2, 3])
                 if n >= 2 and rng.random() < 0.2:
                     # a plateau (slope zero, with the COMPU-INVERSE-VALUE which ODX demands for it): the method stays
                     # monotone and continuous, for either sign of the other slopes
-                    s["num"] = 0
+                    slope = 0
                     s["inv"] = bounds[i]
-                if prev_end is not None:
-                    s["off"] = prev_end - s["num"] * bounds[i]
-                prev_end = s["off"] + s["num"] * bounds[i + 1]
+                s["den"], s["num"] = den, slope * den
+                start = prev_end if prev_end is not None else s["off"]
+                s["off"] = den * (start - slope * bounds[i])
+                prev_end = start + slope * (bounds[i + 1] - bounds[i])
             segs.append(s)
         return dict(k=k, segs=segs)
     if k == "texttable":
@@ -450,10 +452,12 @@ def oracle(c, cm, vals, res):
                     break
     if k == "scalelinear":
         segs = c["segs"]
-        mono = all(s["num"] > 0 for s in segs) or all(s["num"] < 0 for s in segs)
-        cont = all(a["hi"] is not None and b["lo"] is not None and a["hi"][0] == b["lo"][0] and a["hi"][1] != 2 and
-                   b["lo"][1] != 2 and a["den"] == 1 and b["den"] == 1 and
-                   a["off"] + a["num"] * a["hi"][0] == b["off"] + b["num"] * b["lo"][0] for a, b in zip(segs, segs[1:]))
+        sl = [Fraction(s["num"], s["den"]) if s["den"] else None for s in segs]
+        mono = None not in sl and any(x != 0 for x in sl) and (all(x >= 0 for x in sl) or all(x <= 0 for x in sl)) and \
+            all(x != 0 or s["inv"] is not None for x, s in zip(sl, segs))
+        at = lambda s_, x: Fraction(s_["off"] + s_["num"] * x, s_["den"])
+        cont = mono and all(a["hi"] is not None and b["lo"] is not None and a["hi"][0] == b["lo"][0] and a["hi"][1] != 2 and
+                            b["lo"][1] != 2 and at(a, a["hi"][0]) == at(b, b["lo"][0]) for a, b in zip(segs, segs[1:]))
         if mono and cont:
             for v, (vi, vp, a, b) in zip(vals, res):
                 if isinstance(v, int) and vp is True and isinstance(b, list) and b[0] == -1:
